@@ -76,7 +76,7 @@ _p("C07", probes_quick=["kalman_box_c07", "kalman_point_c07"],
    assumptions=K,
    not_covered=[
        "deductively: equality of the filter mean with the textbook recurrence, symmetric positive-definiteness of the covariance, Mahalanobis distance value (nalgebra f32 10x10 products / Cholesky) - bounded probes only"])
-_p("C08", probes_quick=["bbox_geometry_c08"],
+_p("C08", probes_quick=["bbox_geometry_c08", "bbox_iou_exact_c08"],
    level_text=PROOF_TEXT + "Decides the structural clauses of C08: IoU absent exactly when the intersection is 0 or a side is missing; the oriented intersection is 0 for pre-filtered pairs and otherwise the clipper's area unchanged; the axis-aligned closed form is exactly 0 without positive overlap and never negative/NaN.",
    level_note="intersection / too_far / clipper are recording stubs in the callers' harnesses. NOT covered: exactness for rotated boxes, rigid-motion invariance, IoU range/symmetry as numbers, soundness of the too_far pre-filter (trigonometry, geo area in f64).",
    technique="Kani proof harnesses with recording stubs on the real functions",
@@ -106,7 +106,7 @@ _p("C13", probes_thorough=["sort_history"],
    technique="Verus postconditions in place and on verbatim extract; Kani harness for the record echo",
    assumptions=K + V,
    not_covered=[])
-_p("C16", level="other",
+_p("C16", level="other", probes_quick=["distance_c16"],
    level_text="Bounded stand-ins only: one complete Kani proof per vector length (all f32 bit patterns symbolic) for lengths 0..=17 (thorough: +23,24,25,63,64,65,129,130) and cheap Euclidean clauses on one packed block; never counted as proved.",
    level_note="NOT covered: agreement with the scalar formulas, symmetry, triangle inequality, cosine range/scale invariance (true only up to rounding; CBMC's sqrt model is not functional: symmetry queries give spurious counterexamples that do not replay). AVX2 path of the shipped build differs from the verified SSE2 path.",
    technique="Kani proof harnesses per concrete length (bounded), full value domain",
